@@ -291,23 +291,23 @@ CHECKS = {
 ADDED = {
     "C01": "Later additions: loader.align with a template list / 4-D stack at scale != 1. Particles next to the low faces of the tomogram.",
     "C02": "Later additions: two-tomogram BatchLoaders of equal shape, float64 tomograms with a large constant level, and the call-history programmes of spec/Memo.tla on one loader whose molecules are moved in place between loads. Quarter-pixel positions (SamplingQ.tla: nearest voxel at order 0, trilinear mix at order 1, window lemma), loaders built by imread of an MRC file and by from_loaders.",
-    "C03": "Later additions: a second live object (fork by copy/replace/binning(1)/reshape, swap) that no operation on the other may change, registries with gaps, keyword arguments reaching the per-molecule task, the group operations apply and seedless sample (+align), average and save/reload inside sessions. add_loader / from_loaders with another single or batch loader (tomograms named by content, ids local to a batch). Alignments that move every molecule (single and multi-template) leave the source loader where it is.",
+    "C03": "Later additions: a second live object (fork by copy/replace/binning(1)/reshape, swap) that no operation on the other may change, registries with gaps, keyword arguments reaching the per-molecule task, the group operations apply and seedless sample (+align), average and save/reload inside sessions. add_loader / from_loaders with another single or batch loader (tomograms named by content, ids local to a batch). Alignments that move every molecule (single and multi-template) leave the source loader where it is. head(0) / tail(0) derivations.",
     "C04": "Later additions: constant background, the known FSC finding pinned to its 19 configurations (always replayed), Memo.tla programmes on alignment model instances (sub-pixel mesh cache). Search ranges at and beyond the box size (always replayed), float64 / list argument forms. Model.fit (same result, image superimposed on the template), intensity scales 2^-10 / 2^8, a constant background of 100.",
-    "C05": "Later additions: loader-level events (range in nm at the loader's scale) judged by Trace_Align.",
-    "C06": "Later additions: 264-candidate searches, per-group template lists of different lengths and in different order through one model factory (with_params). Masks that are not invariant under the searched rotations; the image passed to Model.align is unchanged and a second call agrees.",
+    "C05": "Later additions: loader-level events (range in nm at the loader's scale) judged by Trace_Align. Template-free alignment (align_no_template of a loader and of a group) as drivers.",
+    "C06": "Later additions: 264-candidate searches, per-group template lists of different lengths and in different order through one model factory (with_params). Masks that are not invariant under the searched rotations; the image passed to Model.align is unchanged and a second call agrees. spec/RotGrid.tla: the candidate list a (max, step) range request denotes (count, order, identity at the centre, exact quarter-turn matrices), replayed on Model(...).quaternions / with_params / list form, every candidate of every quarter-turn grid of <= 27 candidates planted and searched for; one-candidate sets as Rotation objects (stacked and single); masks computed from the templates by a function (callable / ImageConverter) with templates that differ by a small domain.",
     "C07": "Later additions: the score with a wedge is checked against the exact mask of Wedge.tla and with a cutoff against the exact gains of Filter.tla (TLC), Memo.tla programmes on model instances with a wedge and several orientations. Gains 2^-16 and 2^10 through score, landscape and alignment; loader.score with several templates and a converter mask.",
     "C08": "Later additions: UnionAxes with one member, equal members and a no-wedge member (UnionLaws), Memo.tla programmes on all five entry points.",
-    "C09": "Later additions: automatic image ids on registries with gaps, loaded sub-volumes compared with the planted ones, Memo.tla programmes on a batch loader that grows in place. Half maps of fsc_with_halfmaps under a mask are the plain half means; groups derived from groups average again.",
-    "C10": "Later additions: molecules in mutually inverse orientation pairs, a one-molecule-at-a-time reference for tilt alignment and score. Declared landscape shapes for FSC and PCC up to beyond half the box; MockLoader noise under threaded schedulers with legacy numpy.random calls as switch points (TaskStream.tla: private streams hold, a shared re-seeded stream is rejected). The FSC model under the schedulers, a binned loader per chunking.",
+    "C09": "Later additions: automatic image ids on registries with gaps, loaded sub-volumes compared with the planted ones, Memo.tla programmes on a batch loader that grows in place. Half maps of fsc_with_halfmaps under a mask are the plain half means; groups derived from groups average again. Batches whose explicit image ids are registered in descending order with different molecule counts.",
+    "C10": "Later additions: molecules in mutually inverse orientation pairs, a one-molecule-at-a-time reference for tilt alignment and score. Declared landscape shapes for FSC and PCC up to beyond half the box; MockLoader noise under threaded schedulers with legacy numpy.random calls as switch points (TaskStream.tla: private streams hold, a shared re-seeded stream is rejected). The FSC model under the schedulers, a binned loader per chunking. Molecule tables whose order relative to the positions is a 3-cycle and a 2-cycle, per chunking.",
     "C11": "Later additions: every object of a session is observed through every accessor (rotator, matrix, quaternion, rotation vector, axes) at every step; unnormalised axes in from_axes. World rotations given as Euler angles (both axis conventions, degrees / radians).",
     "C12": "Later additions: query / in-place append / query programmes (Sandwich), a table without feature columns, slices with a step, a second pass over group_by / cutby after in-place edits of the first pass, the repository's own tests under a table recorder (thorough). Fortran-ordered positions, 6-row tables, every new object moved in place and back with all other objects watched.",
     "C13": "Later additions: feature order, Float64 values beyond float32, upper-case suffixes, Fortran-ordered positions, NaN and marker-like strings as data. Look-then-rotate-in-place history before saving; a double-precision feature at csv precisions 8 and 9.",
-    "C14": "Later additions: 2-D projection independent of the height of the molecules, low-z molecules. Settings through replace() on a filled simulator, nearest-neighbour paste off the grid, components without molecules.",
+    "C14": "Later additions: 2-D projection independent of the height of the molecules, low-z molecules. Settings through replace() on a filled simulator, nearest-neighbour paste off the grid, components without molecules. Volumes thinner than the template along one axis (the template overhangs both faces).",
     "C15": "Later additions: batches mixing numpy and dask tomograms, every binned image compared with the block sum of its own original. Corner-safe loaders with elongated boxes under quarter turns; int16 / int8 tomograms whose block sums leave the type's range. Parent or sibling used before binning; the parent re-loaded afterwards.",
     "C16": "Later additions: Memo.tla (sound design accepted, both hazard designs rejected by TLC) and its call programmes on the four low-pass entry points. int16 / uint8 / float64 images.",
-    "C17": "Later additions: fsc_with_halfmaps over weighted one-hot sub-volumes judged by the Averaging acceptor (disjoint halves), Memo.tla programmes on the FSC landscape. FSC as an alignment score (FSCAlignment score / landscape / align): symmetric, gain invariant, bounded, 1 for identical inputs with and without a tilt model, equal to the mean shell value. Boxes up to 24^3 with shell widths off any decimal grid against the formula in double precision; group halves as disjoint plain means.",
+    "C17": "Later additions: fsc_with_halfmaps over weighted one-hot sub-volumes judged by the Averaging acceptor (disjoint halves), Memo.tla programmes on the FSC landscape. FSC as an alignment score (FSCAlignment score / landscape / align): symmetric, gain invariant, bounded, 1 for identical inputs with and without a tilt model, equal to the mean shell value. Boxes up to 24^3 with shell widths off any decimal grid against the formula in double precision; group halves as disjoint plain means. Gain invariance of the shell values for gains of 2^22, 2^40 and 2^-40.",
     "C18": "Later additions: soft masks (per-block weights in Pca.tla), voxel-chunked full-rank stacks with components past the spectral gap. classify with a tilt range and molecules in mixed orientations: singular values equal the exact SVD of the wedge-masked differences. Very unequal group sizes over 12 classifier seeds; transform / predict on numpy stacks with a soft mask, twice.",
-    "C19": "Later additions: exact per-axis geometry of from_gaussian for non-integral shape/scale quotients, from_atoms against an exact quarter-pixel histogram. normalize_template / normalize_mask, array parameters at scale 0.5, from_arrays against from_array.",
+    "C19": "Later additions: exact per-axis geometry of from_gaussian for non-integral shape/scale quotients, from_atoms against an exact quarter-pixel histogram. normalize_template / normalize_mask, array parameters at scale 0.5, from_arrays against from_array. The rescale decision of the rescaling providers (Pipe.tla KeepAsIs: relative tolerance, same for (lam o, lam s)) through from_array / from_arrays / from_file / from_files; arithmetic on the result of a comparison (1 - (a == b)).",
     "C20": "Later additions: chunks smaller than the overlap depth (dask merges; LegalMerges), particle pairs inside the cube but outside the ball of the exclusion distance, one matcher built from an ImageProvider used at several scales. Even-sized templates (picks on half pixels): half-open ownership, landscape edge outside the keep-window (TLC), chunk boundaries 1.5 / 0.5 px around particle centres with and without rotation search. A two-lobed template (side maxima within the exclusion distance; known finding pinned to 14 chunkings), float64 images.",
 }
 
